@@ -28,6 +28,18 @@ theorem C18_json (ops : List Op) (old new : List Nat) (h : Valid ops old new = t
   | nil => rfl
   | cons op rest ih => cases op <;> simp [insertsOK, repaired, ih] <;> exact ih
 
+/-- **… as the code computes them**: `output_diff_json` does not count lines itself, it copies the
+`old_index` / `new_index` fields of `similar`'s operations. Whenever those fields are the running
+positions the result is the one above. (`similar`'s compaction pass can leave an insertion that it
+shifted across a run of *identical* lines with its former index - `tests/inputs/table-6.lua` is an
+instance; the reported ranges then describe an equivalent script, and the reconstruction is
+checked on the real pairs rather than proved.) -/
+theorem C18_json_as_indexed (xs : List IOp) (old new : List Nat)
+    (hs : InOrder 0 0 xs = true) (h : Valid (xs.map (·.op)) old new = true) :
+    apply 0 old (mismatchesI repaired xs old new) = new := by
+  rw [DiffLemmas.mismatchesI_seq repaired xs 0 0 old new hs]
+  exact C18_json _ old new h
+
 /-- **no mismatch is reported iff the file is already formatted** -/
 theorem C18_none_iff (v : Variant) (ops : List Op) (old new : List Nat) (h : Valid ops old new = true) :
     (mismatches v 0 0 ops old new = [] → old = new) ∧
